@@ -62,6 +62,7 @@ func Main() {
 		resume := fs.String("resume-after", "", "")
 		witness := fs.String("witness", "", "")
 		replay := fs.String("replay", "", "")
+		only := fs.String("only", "", "")
 		fs.Parse(os.Args[2:]) //nolint:errcheck
 		spec := Lookup(*prop)
 		if spec == nil {
@@ -72,6 +73,9 @@ func Main() {
 		if err != nil {
 			fmt.Fprintln(os.Stderr, err)
 			os.Exit(2)
+		}
+		if *only != "" {
+			s.Only(*only)
 		}
 		switch {
 		case *witness != "":
